@@ -533,16 +533,27 @@ func (c16) RunCase(c *core.Ctx) {
 					clean = append(clean, mm)
 				}
 			}
+			beforeSel := fmt.Sprint(clean...)
 			nm.real = sm.real.Pick(clean...)
 			nm.desc = fmt.Sprintf("S%d = S%d.Pick(%s)", len(schemas), src, desc)
+			if after := fmt.Sprint(clean...); after != beforeSel {
+				c.Violation("operand-modified|selection-argument", map[string]any{"call": nm.desc, "arguments_before": beforeSel, "arguments_after": after})
+				return
+			}
 		case 2, 3: // Omit
 			args, desc, set := selArgs(r, allKeys)
 			nm = &c16Model{fields: copyFields(sm.fields), tests: append([]int{}, sm.tests...), posts: append([]int{}, sm.posts...), parent: src}
 			for k := range set {
 				delete(nm.fields, k)
 			}
+			beforeSel := fmt.Sprint(args...)
 			nm.real = sm.real.Omit(args...)
 			nm.desc = fmt.Sprintf("S%d = S%d.Omit(%s)", len(schemas), src, desc)
+			if after := fmt.Sprint(args...); after != beforeSel {
+				// the caller goes on using its selection maps (for the next Omit / Pick): they are what it made them
+				c.Violation("operand-modified|selection-argument", map[string]any{"call": nm.desc, "arguments_before": beforeSel, "arguments_after": after})
+				return
+			}
 		case 4: // Extend
 			ext := z.Schema{}
 			nm = &c16Model{fields: copyFields(sm.fields), tests: append([]int{}, sm.tests...), posts: append([]int{}, sm.posts...), parent: src}
